@@ -225,6 +225,14 @@ impl TransportVisitor for V {
         let mut nb: Vec<(u16, Vec<u8>, Option<u32>)> = vec![]; // token, frames, device status once completed
         let mut used_order: Vec<u16> = vec![];
         let statuses = [S_OK, S_BAD_MSG, S_NOT_SUPP, S_IO_ERR];
+        if self.pcm_only {
+            // The transfer alphabet starts with the parameters of stream 0 already set (period 4),
+            // so that "transfer, completion, consumption, smaller period, transfer" fits the depth.
+            let (buf, per) = PARAMS[0];
+            if snd.pcm_set_params(0, buf, per, PcmFeatures::from_bits_retain(4), 2, PcmFormat::S16, PcmRate::Rate44100).is_ok() {
+                period[0] = Some(per);
+            }
+        }
         for step in 0..self.depth {
             let ctl_before = sd.borrow().ctl.len();
             let x_before = sd.borrow().xfers.len();
